@@ -47,6 +47,7 @@ static void c05_gen(plan_t *p, rng_t *r, int tier) {
 	/* optional: one thread whose creation fails for good */
 	if (n > 1 && rng_chance(r, 150)) item_set(&p->cfg, "createfail", 1 + (long long)rng_below(r, (uint64_t)n));
 	gen_sched(p, r, tier, 1);
+	long long total_msgs = 0;
 	for (int i = 0; i < nops; i++) {
 		unsigned k = (unsigned)rng_below(r, 100);
 		int pool = (two_pools && rng_chance(r, 300)) ? 1 : 0;
@@ -88,16 +89,18 @@ static void c05_gen(plan_t *p, rng_t *r, int tier) {
 			item_set(&op->it, "actor", (long long)rng_below(r, (uint64_t)actors));
 			item_set(&op->it, "ns", (long long)rng_range(r, 1, 1000000));
 		} else {
-			int big = (tier == TIER_THOROUGH && rng_chance(r, 150));
+			int big = (tier == TIER_THOROUGH && rng_chance(r, 60));
 			op = plan_add_op(p, "flood");
 			item_set(&op->it, "actor", (long long)rng_below(r, (uint64_t)actors));
 			item_set(&op->it, "pool", pool);
 			item_set(&op->it, "dst", pick_dst(r, pn, 150));
 			item_set(&op->it, "n", big ? (long long)rng_range(r, 1030, 2300) : (long long)rng_range(r, 5, 300));
+			total_msgs += item_get(&op->it, "n", 0);
 			item_set(&op->it, "flags", rng_chance(r, 300) ? TP_MSG_F_FAIL_DIRECT : 0);
 			if (faulty) maybe_fault(op, r, 300, 20);
 		}
 	}
+	item_set(&p->sched, "budget", 80000 + 40 * total_msgs);
 }
 
 /* ------------------------------------------------------------------ op interpreter */
